@@ -91,6 +91,60 @@ type Desc struct {
 	// objects: 0 plain zero | 1 value 0 with a non-zero gradient | 2 value 0, zero gradient, Hessian
 	// non-zero on the diagonal only | 3 value 0, zero gradient, Hessian non-zero off the diagonal only
 	Dz int `json:"zero_cells,omitempty"`
+	// DN: number of variables the derivative content of order Order is allocated over (0: 2)
+	DN int `json:"deriv_n,omitempty"`
+	// Vars: after filling, Variables(Vars) is called on the whole (Real-typed) container: the state an
+	// operation that differentiates with respect to its operand would set itself
+	Vars int `json:"variables,omitempty"`
+	// Ord: order in which the non-zero cells are written (it determines the shape of the index tree of a
+	// sparse container): 0 ascending | 1 descending | 2 middle-out
+	Ord int `json:"fill_order,omitempty"`
+}
+
+func (d Desc) dn() int {
+	if d.DN == 0 {
+		return 2
+	}
+	return d.DN
+}
+
+// fillOrder: the positions 0..n-1 in the order in which build writes them
+func fillOrder(n, ord int) []int {
+	L := make([]int, 0, n)
+	switch ord {
+	case 1:
+		for k := n - 1; k >= 0; k-- {
+			L = append(L, k)
+		}
+	case 2:
+		for lo, hi := (n-1)/2, (n-1)/2+1; lo >= 0 || hi < n; lo, hi = lo-1, hi+1 {
+			if lo >= 0 {
+				L = append(L, lo)
+			}
+			if hi < n {
+				L = append(L, hi)
+			}
+		}
+	default:
+		for k := 0; k < n; k++ {
+			L = append(L, k)
+		}
+	}
+	return L
+}
+
+func (d Desc) extraStr() string {
+	s := ""
+	if d.DN != 0 {
+		s += fmt.Sprintf(" deriv-n=%d", d.DN)
+	}
+	if d.Vars != 0 {
+		s += fmt.Sprintf(" Variables(%d)", d.Vars)
+	}
+	if d.Ord != 0 {
+		s += " fill=" + []string{"", "descending", "middle-out"}[d.Ord]
+	}
+	return s
 }
 
 // setDerivOnly gives a zero-valued Real scalar derivative-only content of kind dz
@@ -124,9 +178,9 @@ func dzStr(dz int) string {
 func (d Desc) String() string {
 	switch d.Kind {
 	case "scalar":
-		return fmt.Sprintf("%s(%v,order=%d)%s", d.Typ, d.Val, d.Order, dzStr(d.Dz))
+		return fmt.Sprintf("%s(%v,order=%d)%s%s", d.Typ, d.Val, d.Order, dzStr(d.Dz), d.extraStr())
 	case "vector":
-		s := fmt.Sprintf("%s %s vector n=%d mask=%b order=%d%s", d.Sto, d.Typ, d.N, d.Mask, d.Order, dzStr(d.Dz))
+		s := fmt.Sprintf("%s %s vector n=%d mask=%b order=%d%s%s", d.Sto, d.Typ, d.N, d.Mask, d.Order, dzStr(d.Dz), d.extraStr())
 		if d.Sl != nil {
 			s += fmt.Sprintf(".Slice(%d,%d)", d.Sl[0], d.Sl[1])
 		}
@@ -136,7 +190,7 @@ func (d Desc) String() string {
 	for _, s := range d.Path {
 		ps = append(ps, s.String())
 	}
-	return fmt.Sprintf("%s %s %dx%d mask=%b order=%d%s base.%s", d.Sto, d.Typ, d.R, d.C, d.Mask, d.Order, dzStr(d.Dz), strings.Join(ps, "."))
+	return fmt.Sprintf("%s %s %dx%d mask=%b order=%d%s%s base.%s", d.Sto, d.Typ, d.R, d.C, d.Mask, d.Order, dzStr(d.Dz), d.extraStr(), strings.Join(ps, "."))
 }
 
 func (d Desc) class() string {
@@ -216,7 +270,7 @@ func build(d Desc) (w world) {
 			w.obj = newConstScalar(d.Typ, d.Val)
 		} else {
 			s := ad.NewScalar(scalarType(d.Typ), d.Val)
-			setDerivs(s, d.Order, 2, 0)
+			setDerivs(s, d.Order, d.dn(), 0)
 			if d.Val == 0 {
 				setDerivOnly(s, d.Dz, 0)
 			}
@@ -225,14 +279,17 @@ func build(d Desc) (w world) {
 		w.parent = w.obj
 	case "vector":
 		v := newVec(d.Sto, d.Typ, d.N)
-		for k := 0; k < d.N; k++ {
+		for _, k := range fillOrder(d.N, d.Ord) {
 			if d.Mask&(1<<k) != 0 {
 				s := v.At(k)
 				s.SetFloat64(float64(k + 1))
-				setDerivs(s, d.Order, 2, k)
+				setDerivs(s, d.Order, d.dn(), k)
 			} else if d.Dz > 0 {
 				setDerivOnly(v.At(k), d.Dz, k)
 			}
+		}
+		if mv, ok := v.(ad.MagicVector); ok && d.Vars > 0 {
+			mv.Variables(d.Vars)
 		}
 		w.parent = v
 		w.obj = v
@@ -241,14 +298,17 @@ func build(d Desc) (w world) {
 		}
 	case "matrix":
 		m := newMat(d.Sto, d.Typ, d.R, d.C)
-		for k := 0; k < d.R*d.C; k++ {
+		for _, k := range fillOrder(d.R*d.C, d.Ord) {
 			if d.Mask&(1<<k) != 0 {
 				s := m.At(k/d.C, k%d.C)
 				s.SetFloat64(float64(k + 1))
-				setDerivs(s, d.Order, 2, k)
+				setDerivs(s, d.Order, d.dn(), k)
 			} else if d.Dz > 0 {
 				setDerivOnly(m.At(k/d.C, k%d.C), d.Dz, k)
 			}
+		}
+		if mm, ok := m.(ad.MagicMatrix); ok && d.Vars > 0 {
+			mm.Variables(d.Vars)
 		}
 		w.parent = m
 		v := ad.Matrix(m)
